@@ -19,6 +19,21 @@ FN = {'SUM(', 'IF(', 'MAX(', 'ARRAY('}
 BINOPS = {'=', '<', '>', '<=', '>=', '<>', '&', '+', '-', '*', '/', '^'}
 
 
+QUALS = ("'S 1'!", "'[B.XLSX]T'!", "S2!", "'it''s'!", "'[B.XLSX]S 1'!")
+
+
+def unqual(text):
+    """Remove the qualifications the 'qual' spelling style adds (as the library writes
+    them back: upper-cased, quotes kept or dropped)."""
+    if text is None:
+        return None
+    import re
+    for q in ("'S 1'!", "'[B.XLSX]T'!", "'[B.XLSX]S 1'!", "S2!", "'IT''S'!", "S 1!", "[B.XLSX]T!",
+              "[B.XLSX]S 1!", "IT'S!", "IT''S!"):
+        text = re.sub(re.escape(q), '', text, flags=re.I)
+    return text
+
+
 def is_operand_end(t):
     return t in OPERANDS or t in (')', '}', '%')
 
@@ -143,8 +158,13 @@ def spell(toks, style, rnd=None):
     out = []
     prev = None
     prev_binary = False
+    nref = 0
     for t in toks:
         s = ws if t == '_' else t
+        if style == 'qual' and t in REFS:
+            # sheet- and workbook-qualified spellings, quoted and not, in turn
+            s = QUALS[nref % len(QUALS)] + t
+            nref += 1
         if style in ('lower', 'mixed') and (t in FN or t in REFS):
             s = s.lower() if style == 'lower' else ''.join(
                 c.lower() if i % 2 else c.upper() for i, c in enumerate(s))
